@@ -1954,6 +1954,8 @@ def _parse_hook_source(src: str) -> Tuple[Optional[ast.FunctionDef], Dict[str, s
 def c03_layout_checks(repo: Repo, tier: str, res: CheckResult, seed: int) -> None:
     from .genaudit import audit_dumper, audit_loader
     recs = [r for r in run_child(repo, tier, seed, "layoutpipe") if r.get("kind") == "layoutpipe"]
+    # single-word ids with capitals under every name style (a small fixed family of its own: the random stream above is untouched)
+    recs += [r for r in run_child(repo, tier, seed, "stylepipe") if r.get("kind") == "layoutpipe"]
     NL = "adaptix/_internal/morphing/name_layout/component.py"
     n = n_prog = 0
     for r in recs:
